@@ -64,6 +64,11 @@ func (p Parser) HandleRawSQLQuery(sql string) (normalizedQuery, redactedQuery st
 	outputStmt, _ := p.Parse(sqlStripped)
 
 	normalizedQ := String(stmt)
+	if _, notParsed := stmt.(NotParsedStatement); notParsed {
+		// values cannot be found and masked in a statement that was not parsed,
+		// so it has no form that is safe to display
+		return normalizedQ, "", outputStmt, nil
+	}
 
 	// redact and mask VALUES
 	Normalize(stmt, bv, ValueMask)
